@@ -4,7 +4,7 @@
    call of a function of an earlier unit made after later units were compiled are compared with the real Env. *)
 From Coq Require Import List ZArith Bool String.
 From RG.Base Require Import Outcome GoInt GoSlice.
-From RG.Quasigo Require Import Source Bytecode Compile VM Sem Guards Link FunCorrect Correct Harness Env.
+From RG.Quasigo Require Import Source Bytecode Compile VM Sem Guards Link FunCorrect Correct Encodable Harness Env.
 Import ListNotations.
 Local Open Scope Z_scope.
 
@@ -82,7 +82,7 @@ Definition check_hist (h : hcase) : list (Z * Z) * list (Z * Z) * list Z :=
   let p := mkpcase (ev_srcs e) [] false (hc_calls h) in
   (r ++ check_table 0 (ev_funcs e) (hc_table h) ++ check_names e (hc_names h),
    check_calls cfg fuel p (vfuncs_bytes cfg (hc_table h)) (Some (map vfunc_of_cfunc (ev_funcs e))) 0 (hc_calls h),
-   unsafe_roots p ++ [-1; if in_scope cfg (ev_srcs e) (ev_funcs e) then 1 else 0]).
+   unsafe_roots p ++ [-1; if source_guard cfg (ev_srcs e) then 1 else 0]).
 
 (* the model side of check_units is Env.load_units *)
 Lemma check_decls_env u : forall ds err e, (fst (check_decls u ds err e) = [] -> snd (check_decls u ds err e) = fst (load_decls cfg u e)).
